@@ -65,6 +65,11 @@ CASES = {
         "backslash-at-eof": ("escape at end of input", err("\t.ascii \"abc\\", ["invalid-escape"])),
         "bad-hex-escape": ("incomplete \\x escape", err("\t.ascii \"ab\\xZ\"\n", ["invalid-escape"])),
         "extern-all-clash": ("F5", err("\t.extern all\nq0::\tnop\n", ["duplicate-symbol"])),
+        "nul-include-path": ("file name with a NUL character (atheris campaign)", err("\t.include <0>\n", ["io-error"])),
+        "nul-insert-path": ("file name with a NUL character (atheris campaign)", err("\tinsert_file /a<0>b/\n", ["io-error"])),
+        "link-cycle-self-symbol": ("repr of a self-referential symbol in the link-base cycle message (atheris campaign)", err("\t.link 1000 + . - y\ny = y\n", ["recursive-definition"])),
+        "non-ascii-digit-9": ("str.isdigit() digit that int(s, 8) rejects (atheris campaign)", err("\tmov r1, r2\u0d6f\n", [])),
+        "superscript-digit": ("str.isdigit() character that int() rejects", err("\t.word 1\u00b2\n", [])),
     },
     "C03": {
         "dynamic-register-forward": ("%sym register number defined later", equiv("\tclr (%fwd)+\nfwd = 3\n", "fwd = 3\n\tclr (%fwd)+\n", "\tclr (r3)+\n")),
